@@ -7,6 +7,12 @@ against `Model/Ring.lean`.  Every field of a transition encodes its id, so a slo
 disagree shows up as MIXED.  Oracle: independent last-N reference in Python + "a batch handed out
 is never altered later" + "no duplicates in one uniform batch".
 
+Handed-out batches: every batch `sample(k, return_idx=True)` returns is kept together with a deep snapshot
+taken at hand-out time; after every later draw and at the end of the case EVERY field (the "idxs", for the
+prioritized buffer also "weights") must still equal the snapshot, and at hand-out the idxs must index the
+batch's own rows in the storage.  Suite `handout` does the same for ReplayBuffer, MultiStepReplayBuffer and
+PrioritizedReplayBuffer: three draws at unchanged length, then further adds each followed by a draw.
+
 Rejected additions (single-agent): `badadd w` hands `add` a malformed batch (every leaf has one column too
 many, ids 9001…) once the storage exists; the real code raises, the model answers `reject`; afterwards length,
 contents, counter and all later ops must be as if the call had not happened.  Every leaf is malformed on purpose:
@@ -137,6 +143,20 @@ def decode_rows(td, n: int) -> list[str]:
     return out
 
 
+def batch_diff(snap, live):
+    """first difference between a deep snapshot of a handed-out batch and the live batch (every field, "idxs" and
+    "weights" included), or None"""
+    ks, kl = (sorted(map(str, t.keys(include_nested=True, leaves_only=True))) for t in (snap, live))
+    if ks != kl:
+        return f"fields {ks} -> {kl}"
+    for key in snap.keys(include_nested=True, leaves_only=True):
+        a, b = snap[key], live[key]
+        if a.shape != b.shape or a.dtype != b.dtype or not torch.equal(a, b):
+            return (f"field {key if isinstance(key, str) else '.'.join(key)}: {a.reshape(-1)[:8].tolist()} -> "
+                    f"{b.reshape(-1)[:8].tolist()}")
+    return None
+
+
 def gen_ops(rng: random.Random, cap: int, length: int, bad: bool = False):
     ops, size = [], 0
     nid = 1
@@ -238,7 +258,17 @@ def run_impl_single(cap: int, kind: str, ops, case_seed: int):
             rows = decode_rows(s, s.shape[0])
             model_lines.append(f"ring sample {len(idx)} " + " ".join(map(str, idx)))
             obs_lines.append(" ".join(rows))
-            handed.append((list(rows), s))
+            # oracle: batches handed out before are untouched by this draw (every field, "idxs" included) ...
+            for h in handed:
+                d = None if h[3] else batch_diff(h[1], h[2])
+                if d:
+                    h[3] = True
+                    problems.append(f"a batch handed out earlier was altered later (by another sample): {d}")
+            # ... and the idxs of the new batch point at its own rows
+            own = decode_rows(buf.storage[s["idxs"].reshape(-1)], len(idx)) if idx else []
+            if own != rows:
+                problems.append(f"sample idxs {idx} point at rows {own}, the batch holds {rows}")
+            handed.append([list(rows), s.clone(), s, False])
             # oracle: right number, stored, no duplicates
             expect = set(map(str, since_clear[-cap:]))
             if len(rows) != k:
@@ -268,10 +298,13 @@ def run_impl_single(cap: int, kind: str, ops, case_seed: int):
             obs_lines.append("ok")
             tags.append("clear")
     # oracle: batches handed out earlier are unchanged
-    for snap, live in handed:
+    for snap_rows, snap, live, reported in handed:
         now = decode_rows(live, live.shape[0])
-        if now != snap:
-            problems.append(f"a batch handed out earlier was altered later: {snap} -> {now}")
+        d = batch_diff(snap, live)
+        if now != snap_rows:
+            problems.append(f"a batch handed out earlier was altered later: {snap_rows} -> {now}")
+        elif d and not reported:
+            problems.append(f"a batch handed out earlier was altered later: {d}")
     model_lines.append("ring counter")
     obs_lines.append(str(buf.counter))
     return obs_lines, model_lines, problems, tags
@@ -531,6 +564,7 @@ def run(chk: Check) -> None:
                           replay, no_input=True)
     chk.suite("ring-ops", len(cases), ndiff)
     sample_stress(chk)
+    handout_suite(chk)
     if chk.tier == "thorough":
         selftest(chk)
 
@@ -612,6 +646,94 @@ def sample_stress(chk: Check) -> None:
     chk.suite("sample-stress", n_cfg, bad)
 
 
+HANDOUT_CLASSES = ["ReplayBuffer", "MultiStepReplayBuffer", "PrioritizedReplayBuffer"]
+
+
+def handout_one(cls_name: str, cap: int, fill: int, batch: int, seed: int, w: int, more: int):
+    try:
+        return _handout_one(cls_name, cap, fill, batch, seed, w, more)
+    except Exception as e:
+        return f"{cls_name}(max_size={cap}): implementation raised {type(e).__name__}: {str(e)[:200]}"
+
+
+def _handout_one(cls_name: str, cap: int, fill: int, batch: int, seed: int, w: int, more: int):
+    """keep every batch (with its idxs) that sample() hands out; sample again at unchanged length, add, sample
+    again: no field of an earlier batch may change, and idxs must index the batch's own rows"""
+    from agilerl.components import replay_buffer as rb
+    torch.manual_seed(seed)
+    if cls_name == "ReplayBuffer":
+        buf = rb.ReplayBuffer(max_size=cap)
+    elif cls_name == "MultiStepReplayBuffer":
+        buf = rb.MultiStepReplayBuffer(max_size=cap, n_step=1, gamma=0.5)
+    else:
+        buf = rb.PrioritizedReplayBuffer(max_size=cap, alpha=0.5)
+    kept = []          # [deep snapshot, live batch]
+    nid = 1
+
+    def add(upto):
+        nonlocal nid
+        while nid <= upto:
+            ids = list(range(nid, min(nid + w, upto + 1)))
+            buf.add(make_transition("vector", ids))
+            nid += len(ids)
+
+    def draw(where):
+        k = min(batch, len(buf))
+        b = buf.sample(k) if cls_name == "PrioritizedReplayBuffer" else buf.sample(k, return_idx=True)
+        if "idxs" not in b.keys():
+            return f"{cls_name}: sample did not return idxs"
+        idx = b["idxs"].reshape(-1)
+        rows, own = decode_rows(b, b.shape[0]), decode_rows(buf.storage[idx], idx.numel())
+        if rows != own:
+            return f"{cls_name}(max_size={cap}) {where}: idxs {idx.tolist()[:8]} point at rows {own[:8]}, the batch holds {rows[:8]}"
+        for snap, live in kept:
+            d = batch_diff(snap, live)
+            if d:
+                return (f"{cls_name}(max_size={cap}) holding {len(buf)} rows: a batch handed out earlier was altered "
+                        f"by a later sample({k}) {where}: {d}")
+        kept.append([b.clone(), b])
+        return None
+
+    add(fill)
+    for where in ("at unchanged length", "at unchanged length", "at unchanged length"):
+        p = draw(where)
+        if p:
+            return p
+    for step in range(more):
+        add(nid + w - 1)
+        for snap, live in kept:
+            d = batch_diff(snap, live)
+            if d:
+                return f"{cls_name}(max_size={cap}): a batch handed out earlier was altered by a later add: {d}"
+        p = draw("after a further add")
+        if p:
+            return p
+    return None
+
+
+def handout_suite(chk: Check) -> None:
+    rng = chk.rng
+    n_cfg = 18 if chk.tier == "quick" else 90
+    bad = 0
+    for i in range(n_cfg):
+        cls_name = HANDOUT_CLASSES[i % 3]
+        cap = rng.choice([2, 3, 5, 8, 16, 33])
+        fill = rng.choice([cap, cap + rng.randint(1, cap), rng.randint(1, cap)])
+        batch = rng.randint(1, min(fill, cap))
+        w = rng.choice([1, 1, 2, 3])
+        w = min(w, cap)
+        seed, more = rng.randrange(1 << 30), rng.randint(1, 4)
+        problem = handout_one(cls_name, cap, fill, batch, seed, w, more)
+        chk.case(["handout", cls_name, cap, fill, batch, seed, w, more], nontrivial=fill >= cap,
+                 sample={"suite": "handout", "buffer": cls_name, "cap": cap, "added": fill, "batch": batch},
+                 tags=["handout", f"handout-{cls_name}"])
+        if problem:
+            bad += 1
+            chk.violation(problem, {"suite": "handout", "buffer": cls_name, "cap": cap, "added": fill, "batch": batch,
+                                    "torch_seed": seed, "add_width": w, "more_adds": more})
+    chk.suite("handout", n_cfg, bad)
+
+
 def renumber(ops):
     """after shrinking, ids must still be 1,2,3,… in order of addition"""
     out, nid = [], 1
@@ -655,6 +777,12 @@ def replay(chk: Check, path: str) -> int:
     c = c.get("replay", c)
     if c.get("suite") == "sample-stress":
         problem = stress_one(c["buffer"], c["cap"], c["added"], c["batch"], c["torch_seed"], c["add_width"], c["draws"])
+        print(json.dumps({"problem": problem}))
+        if problem:
+            print(f"VIOLATION property=C09 replay={path}")
+        return 1 if problem else 0
+    if c.get("suite") == "handout":
+        problem = handout_one(c["buffer"], c["cap"], c["added"], c["batch"], c["torch_seed"], c["add_width"], c["more_adds"])
         print(json.dumps({"problem": problem}))
         if problem:
             print(f"VIOLATION property=C09 replay={path}")
